@@ -685,6 +685,8 @@ func sgRegByFold(P *Program) (folded, good bool, why string) {
 		{"[]int64", &cpRType{ID: "[]int64", Kind: int64(reflect.Slice), Elem: inner, Size: 24}, inner},
 		{"map[string]int64", &cpRType{ID: "map[string]int64", Kind: int64(reflect.Map), Elem: inner, Key: cpRTypeOfKind(reflect.String, false), Size: 8}, inner},
 		{"struct{F int64}", strct, inner},
+		{"map[string]struct{F int64}", &cpRType{ID: "map[string]fx.Rec", Kind: int64(reflect.Map), Elem: strct, Key: cpRTypeOfKind(reflect.String, false), Size: 8}, strct},
+		{"[]struct{F int64}", &cpRType{ID: "[]fx.Rec", Kind: int64(reflect.Slice), Elem: strct, Size: 24}, strct},
 	}
 	good = true
 	for _, k := range cases {
@@ -692,7 +694,7 @@ func sgRegByFold(P *Program) (folded, good bool, why string) {
 		if !ok {
 			return false, false, ""
 		}
-		sawHit := false
+		sawHit, sawBuilt := false, false
 		for _, o := range outs {
 			if o.Panics || len(o.Results) != 2 {
 				continue
@@ -719,6 +721,9 @@ func sgRegByFold(P *Program) (folded, good bool, why string) {
 				}
 				continue
 			}
+			if _, errNil := o.Results[1].(cpNil); errNil {
+				sawBuilt = true
+			}
 			if k.sub != nil {
 				if _, errNil := o.Results[1].(cpNil); errNil {
 					subLooked := false
@@ -735,6 +740,125 @@ func sgRegByFold(P *Program) (folded, good bool, why string) {
 		}
 		if !sawHit {
 			good, why = false, fmt.Sprintf("no outcome returns a registered schema for a type like %s", k.name)
+		}
+		if !sawBuilt {
+			good, why = false, fmt.Sprintf("no outcome generates a schema for an unregistered type like %s: whether its element is looked up cannot be seen", k.name)
+		}
+	}
+	// a record's fields, whatever their Go kind and whether named or embedded, with or without omitempty: the
+	// field's type is looked up in the registry, and when it is found there the field is typed by the registered
+	// schema (bare, or as the second branch of [null, S])
+	{
+		named := func(k reflect.Kind, byteElem bool, nm string) *cpRType {
+			t := cpRTypeOfKind(k, byteElem)
+			t.ID, t.Name, t.PkgPath = "fx."+nm, nm, "example.com/fx-pkg"
+			return t
+		}
+		opaque := named(reflect.Struct, false, "Opaque")
+		opaque.Fields = []cpRField{{Name: "wall", PkgPath: "example.com/fx-pkg", Type: inner}}
+		opaque.Size = 8
+		type fcase struct {
+			name string
+			ft   *cpRType
+			anon bool
+			tag  string
+		}
+		var fcases []fcase
+		for _, tag := range []string{`json:"f"`, `json:"f,omitempty"`, ``} {
+			fcases = append(fcases,
+				fcase{"a named byte array", named(reflect.Array, true, "Arr"), false, tag},
+				fcase{"a named string type", named(reflect.String, false, "Str"), false, tag},
+				fcase{"a named slice type", named(reflect.Slice, false, "Sl"), false, tag},
+				fcase{"a named struct type", opaque, false, tag},
+			)
+		}
+		fcases = append(fcases, fcase{"an embedded struct type", opaque, true, ``}, fcase{"an embedded struct type", opaque, true, `json:",omitempty"`})
+		for _, fc := range fcases {
+			st := cpRTypeOfKind(reflect.Struct, false)
+			fname := "F"
+			if fc.anon {
+				fname = fc.ft.Name
+			}
+			st.Fields = []cpRField{{Name: fname, Tag: fc.tag, Type: fc.ft, Anonymous: fc.anon}}
+			st.Size = fc.ft.Size
+			pos := fmt.Sprintf("a field of %s (tag `%s`)", fc.name, fc.tag)
+			outs, _, ok, _ := cpFoldOpt(P, root, []cpVal{st}, nil)
+			if !ok {
+				return false, false, ""
+			}
+			sawHit := false
+			for _, o := range outs {
+				if o.Panics || len(o.Results) != 2 {
+					continue
+				}
+				if _, errNil := o.Results[1].(cpNil); !errNil {
+					continue
+				}
+				var look *cpCall
+				first := true
+				for i, cl := range o.Calls {
+					if cl.Callee != "maplookup" || !isRegistry(cl.Args[0]) {
+						continue
+					}
+					if first {
+						first = false
+						if cl.Args[1] == cpVal(st) {
+							if tup, _ := cl.Result.(cpTuple); len(tup.Vs) == 2 {
+								if okU, _ := tup.Vs[1].(cpUnk); o.Decided[okU.ID] {
+									look = nil
+									goto nextOutcome // the record type itself is registered
+								}
+							}
+						}
+					}
+					if cl.Args[1] == cpVal(fc.ft) && look == nil {
+						look = &o.Calls[i]
+					}
+				}
+				if look == nil {
+					good, why = false, fmt.Sprintf("a record is generated without %s having been looked up in the schema registry: a registered type there would not get its registered schema", pos)
+					continue
+				}
+				{
+					tup, _ := look.Result.(cpTuple)
+					if len(tup.Vs) != 2 {
+						return false, false, ""
+					}
+					okU, _ := tup.Vs[1].(cpUnk)
+					S, isS := tup.Vs[0].(cpUnk)
+					if !o.Decided[okU.ID] || !isS {
+						continue
+					}
+					sawHit = true
+					// the generated record has one field, typed S or [null, S]
+					fieldsOK := false
+					if ov, okO := cpFieldByName(o.Results[0], "Object"); okO {
+						if pt, isP := ov.(cpPtr); isP && pt.C != nil {
+							if fv, okF := cpFieldByName(pt.C.V, "Fields"); okF {
+								if sl, isSl := fv.(cpSlice); isSl && len(sl.Elems) == 1 {
+									tv, _ := cpFieldByName(sl.Elems[0].V, "Type")
+									if tu, isU := tv.(cpUnk); isU && tu.ID == S.ID {
+										fieldsOK = true
+									} else if uv, okU := cpFieldByName(tv, "Union"); okU {
+										if us, isUS := uv.(cpSlice); isUS && len(us.Elems) == 2 {
+											if su, isU := us.Elems[1].V.(cpUnk); isU && su.ID == S.ID {
+												fieldsOK = true
+											}
+										}
+									}
+								}
+							}
+						}
+					}
+					if !fieldsOK {
+						good, why = false, fmt.Sprintf("with %s registered, the generated record does not have exactly one field typed by the registered schema (or [null, that schema])", pos)
+					}
+				}
+			nextOutcome:
+			}
+			if !sawHit && good {
+				good, why = false, fmt.Sprintf("no outcome types %s by a registered schema", pos)
+			}
 		}
 	}
 	// a pointer to a registered type: whether the registered schema is passed through or wrapped in [null, S] must
